@@ -18,8 +18,9 @@ Record eitem := { ei_stream : stream; ei_field : string; ei_kind : ikind }.
 Record ritem := { ri_stream : stream; ri_field : string; ri_kind : ikind;
                   ri_guard : option lenexp; ri_access : lenexp; ri_adv : option lenexp }.
 
-Definition emitted_of (m : mop) : list eitem :=
+Fixpoint emitted_of (m : mop) : list eitem :=
   match m with
+  | MIf _ m' => emitted_of m'
   | MInt s f w e => [{| ei_stream := s; ei_field := f; ei_kind := KInt w e |}]
   | MBytes s f => [{| ei_stream := s; ei_field := f; ei_kind := KBytes |}]
   | MNested s f t _ => [{| ei_stream := s; ei_field := f; ei_kind := KNested t |}]
@@ -29,8 +30,9 @@ Definition emitted_of (m : mop) : list eitem :=
   | _ => []
   end.
 
-Definition read_of (u : uop) : option (stream * string * ikind * lenexp) :=
+Fixpoint read_of (u : uop) : option (stream * string * ikind * lenexp) :=
   match u with
+  | UIf _ u' => read_of u'
   | UInt s f w e acc => Some (s, f, KInt w e, acc)
   | UBytes s f e => Some (s, f, KBytes, e)
   | UNested s f t e => Some (s, f, KNested t, e)
@@ -40,7 +42,7 @@ Definition read_of (u : uop) : option (stream * string * ikind * lenexp) :=
 
 (* reads with the guard that precedes them and the advance that follows them *)
 Definition next_adv (r : list uop) : option lenexp :=
-  match r with UAdv a :: _ => Some a | _ => None end.
+  match r with UAdv a :: _ => Some a | UIf _ (UAdv a) :: _ => Some a | _ => None end.
 
 Fixpoint reads_of (us : list uop) (guard : option lenexp) {struct us} : list ritem :=
   match us with
@@ -48,6 +50,7 @@ Fixpoint reads_of (us : list uop) (guard : option lenexp) {struct us} : list rit
   | u :: r =>
       match u with
       | UGuard _ g => reads_of r (Some g)
+      | UIf _ (UGuard _ g) => reads_of r (Some g)
       | _ =>
           match read_of u with
           | Some (s, f, k, acc) =>
